@@ -598,6 +598,7 @@ func (k *kase) negotiated() (string, error) {
 	kk.m = matcherSpec{}
 	kk.mkey = "c:*:*"
 	kk.method = "GET"
+	kk.h = nil // the probe has a configuration of its own (always eligible), never the instance of an `mr` line
 	r, res, err := kk.runRecorded(ops)
 	if err != nil {
 		return "", err
